@@ -3,6 +3,7 @@ from __future__ import annotations
 
 import ast
 
+from ..amatch import AM
 from ..report import AnalysisError
 from ..srcmodel import norm
 from . import c15
@@ -42,25 +43,20 @@ def rule_a(ctx):
             cur = cur.orelse[0]
         ok = any(isinstance(s, ast.Raise) for s in cur.orelse)
     ctx.ob(R, f.qname, "dispatch chain ends in raise", ok, "", f.node)
+    am = AM(f)
     rets = [r for r in ast.walk(f.node) if isinstance(r, ast.Return) and r.value is not None]
-    ok = len(rets) == 1 and isinstance(rets[0].value, ast.Call) and isinstance(rets[0].value.func, ast.Name) and [norm(a) for a in rets[0].value.args] == [p1, p2] and not rets[0].value.keywords
+    ok = len(rets) == 1 and am.eq(rets[0].value, f"w1({p1}, {p2})")
     ctx.ob(R, f.qname, "the result is exactly <back end>(mass_1, mass_2)", ok, norm(rets[0].value) if rets else "", f.node)
-    obj = rets[0].value.func.id if ok else None
-    ctors = [n for n in ast.walk(f.node) if isinstance(n, ast.Assign) and obj and norm(n.targets[0]) == obj]
-    built = {}
-    for n in ctors:
-        if isinstance(n.value, ast.Call):
-            built[norm(n.value.func)] = [norm(a) for a in n.value.args]
-    var = {k: v for k, v in built.items() if k.startswith("WassersteinDistance")}
-    ctx.ob(R, f.qname, "both variational back ends are built as Cls(grid, weight, options)", set(var) == {"WassersteinDistanceNewton", "WassersteinDistanceBregman"}
-           and all(v == ["grid", pw, "options"] for v in var.values()), str(built), f.node)
-    env = {norm(n.targets[0]): norm(n.value) for n in ast.walk(f.node) if isinstance(n, ast.Assign) and isinstance(n.targets[0], ast.Name)}
-    annenv = {norm(n.target): norm(n.value) for n in ast.walk(f.node) if isinstance(n, ast.AnnAssign) and n.value is not None}
-    env.update(annenv)
-    ctx.ob(R, f.qname, "grid is generate_grid(mass_1)", env.get("grid") == f"darsia.generate_grid({p1})", env.get("grid", ""), f.node)
-    ctx.ob(R, f.qname, "options is the caller's options (or an empty dict)", env.get("options") == "kwargs.get('options', {})", env.get("options", ""), f.node)
-    writes = [norm(n) for n in ast.walk(f.node) if isinstance(n, (ast.Assign, ast.AugAssign)) and any(isinstance(t, ast.Subscript) and norm(t.value) == "options" for t in (n.targets if isinstance(n, ast.Assign) else [n.target]))]
-    writes += [norm(n) for n in ast.walk(f.node) if isinstance(n, ast.Call) and norm(n.func) in ("options.update", "options.pop", "options.setdefault")]
+    g_ok = am.has(f.node, f"grid = darsia.generate_grid({p1})") is not None or am.has(f.node, f"grid: darsia.Grid = darsia.generate_grid({p1})") is not None
+    o_ok = am.has(f.node, "options = kwargs.get('options', {})") is not None
+    n_ok = am.has(f.node, f"w1 = WassersteinDistanceNewton(grid, {pw}, options)") is not None
+    b_ok = am.has(f.node, f"w1 = WassersteinDistanceBregman(grid, {pw}, options)") is not None
+    ctx.ob(R, f.qname, "both variational back ends are built as Cls(grid, weight, options)", n_ok and b_ok, str(am.show()), f.node)
+    ctx.ob(R, f.qname, "grid is generate_grid(mass_1)", g_ok, "", f.node)
+    ctx.ob(R, f.qname, "options is the caller's options (or an empty dict)", o_ok, "", f.node)
+    oname = am.actual("options") or "options"
+    writes = [norm(n) for n in ast.walk(f.node) if isinstance(n, (ast.Assign, ast.AugAssign)) and any(isinstance(t, ast.Subscript) and norm(t.value) == oname for t in (n.targets if isinstance(n, ast.Assign) else [n.target]))]
+    writes += [norm(n) for n in ast.walk(f.node) if isinstance(n, ast.Call) and norm(n.func) in (f"{oname}.update", f"{oname}.pop", f"{oname}.setdefault", f"{oname}.clear")]
     ctx.ob(R, f.qname, "options is not written", not writes, str(writes), f.node)
     ctx.floor(R, 1)
 
@@ -92,14 +88,16 @@ def rule_b(ctx):
     # integrand and total
     norms = [norm(c) for c in ast.walk(td.node) if isinstance(c, ast.Call) and norm(c.func) == "np.linalg.norm"]
     ctx.ob(R, td.qname, "integrand is the Euclidean norm over the last axis of the cell flux", len(norms) == 2 and all(x.endswith(", 2, axis=-1)") for x in norms), str(norms), td.node)
+    am = AM(td)
     loops = [l for l in ast.walk(td.node) if isinstance(l, ast.For)]
-    ok = len(loops) == 1 and norm(loops[0].iter) == "zip(quad_pts, quad_weights)"
-    acc = [norm(s) for s in ast.walk(td.node) if isinstance(s, ast.AugAssign)]
-    ctx.ob(R, td.qname, "density accumulates weight * |flux(point)| over zip(points, weights)", ok and acc == ["transport_density += quad_weight * cell_flux_norm"], f"{acc}", td.node)
+    ok = len(loops) == 1 and am.eq(loops[0].iter, "zip(quad_pts, quad_weights)") and am.eq(loops[0].target, "(quad_pt, quad_weight)")
+    acc = am.has(td.node, "transport_density += quad_weight * cell_flux_norm") is not None
+    pts_ok = am.has(td.node, "cell_flux = darsia.face_to_cell(self.grid, flat_flux, pt=quad_pt)") is not None
+    ctx.ob(R, td.qname, "density accumulates weight * |flux(point)| over zip(points, weights)", ok and acc and pts_ok, str(am.show()), td.node)
     l1 = ctx.model.func(WAS, "VariationalWassersteinDistance.l1_dissipation")
-    rets = [norm(r.value) for r in ast.walk(l1.node) if isinstance(r, ast.Return)]
-    calls = [norm(c) for c in ast.walk(l1.node) if isinstance(c, ast.Call) and norm(c.func) == "self.transport_density"]
-    ctx.ob(R, l1.qname, "distance = sum(mass_matrix_cells . transport_density(flux))", rets == ["self.mass_matrix_cells.dot(transport_density).sum()"] and calls == [f"self.transport_density({l1.params[1]})"], f"{rets} {calls}", l1.node)
+    am2 = AM(l1)
+    ok = am2.has(l1.node, f"transport_density = self.transport_density({l1.params[1]})") is not None and am2.has(l1.node, "return self.mass_matrix_cells.dot(transport_density).sum()") is not None
+    ctx.ob(R, l1.qname, "distance = sum(mass_matrix_cells . transport_density(flux))", ok, str(am2.show()), l1.node)
 
 
 def run(ctx):
